@@ -480,18 +480,21 @@ def check(ctx: Ctx, col: Collector, tier: str) -> None:
                                                                      f"declaration that cannot be moved, registers it for a re-export module (changing the dictionary that create_reexport_module_strings iterates: "
                                                                      f"RuntimeError) and drops its text from the class"]))
     # the alias a moved declaration takes is the alias of the import that names *it*, not of an import whose name merely ends like it
-    for label, qn, want_alias in (("own import", "._impl.read", True), ("import of a longer name", "._impl.fast_read", False), ("import of a module path ending in the name", "._impl.read.helpers", False)):
+    # (nor of an import that names a declaration of the same name in another module: `from ._v1 import Model as ModelV1` / `from ._v2 import Model`)
+    for label, qn, want_alias in (("own import", "_impl.read", True), ("own import, absolute", "pkg._impl.read", True), ("import of a longer name", "_impl.fast_read", False),
+                                  ("import of a module path ending in the name", "_impl.read.helpers", False), ("import of a namesake in another module", "_other.read", False)):
         qi = Obj("QualifiedImport", (("qualified_name", Const(qn)), ("alias", Const("fread"))))
         mod = Obj("Module", (("id", Const("pkg")), ("qualified_imports", ListV((qi,)))))
-        nodeo = Obj("Function", (("name", Const("read")), ("reexported_by", ListV((mod,)))))
+        nodeo = Obj("Function", (("name", Const("read")), ("id", Const("pkg/_impl/read")), ("reexported_by", ListV((mod,)))))
         aouts = ctx.interp(hfi).run_function(hfi, {"self": Sym("self"), "node": nodeo}, gen_state({"self.reexport_modules": Sym("self.reexport_modules")}))
         moved = [o for o in aouts if o.kind == "return" and o.value == Const(True)]
         renamed = [o for o in moved if any(e.kind == "store" and e.target == "node.name" for e in o.effects)]
         good = bool(moved) and ((len(renamed) == len(moved)) if want_alias else not renamed)
         key = f"{GEN}::{GENCLS}._has_node_shorter_reexport::alias-of::{qn}"
         (col.ok if good else col.bad)("C03.MOVE", key, repo.loc(GEN, hfi.node), f"{label} (`from {qn} import ... as fread`), declaration `read`: renamed on {len(renamed)} of {len(moved)} moving paths",
-                                      *([] if good else [f"a moved declaration `read` takes the alias of `from {qn.rsplit('.', 1)[0]} import {qn.rsplit('.', 1)[1]} as fread` ({label}): with "
-                                                         f"`from ._impl import read, fast_read as fread` both functions are written as `fread` into one stub file and `read` is lost"
+                                      *([] if good else [f"a moved declaration `read` (pkg/_impl/read) takes the alias of `from .{qn.rsplit('.', 1)[0]} import {qn.rsplit('.', 1)[1]} as fread` ({label}): with "
+                                                         f"`from ._impl import read, fast_read as fread` both functions are written as `fread` into one stub file and `read` is lost; with "
+                                                         f"`from ._v1 import Model as ModelV1` / `from ._v2 import Model` both classes are written to Model.sdsstub and ModelV1 is lost"
                                                          if not want_alias else "the alias of the declaration's own import is not applied"]))
     # an import under a private alias (`from .shapes import Circle as _Circle`) publishes nothing: the declaration stays where it is, under its own name
     qi = Obj("QualifiedImport", (("qualified_name", Const(".shapes.Circle")), ("alias", Const("_Circle"))))
